@@ -343,7 +343,7 @@ def finding_for(ob, prop, findings):
 # --------------------------------------------------------------------------- reporting
 
 def write_replay(prop, ob, extra=None):
-    d = os.path.join(VERIF, "replays")
+    d = os.path.join(os.environ.get("ABRA_VERIF_OUT") or VERIF, "replays")
     os.makedirs(d, exist_ok=True)
     path = os.path.join(d, "%s-%s.json" % (prop, re.sub(r'[^A-Za-z0-9_.-]', '_', ob.id)))
     body = dict(property=prop, obligation=ob.id, unit=ob.unit, function=ob.function,
@@ -359,8 +359,14 @@ def write_replay(prop, ob, extra=None):
 def write_evidence(prop, tier, level, obligations, wall_s, assumptions, trusted_base,
                    checker_cmds, notes=None, violations=0, known=(), extra_cov=None):
     obs = [o for o in obligations]
-    n = len(obs)
-    disch = sum(1 for o in obs if o.status == DISCHARGED)
+    if level == "proof":
+        # bounded / syntactic obligations are reported separately and never counted as proved
+        proved_pool = [o for o in obs if not o.bounded]
+    else:
+        proved_pool = obs
+    n = len(proved_pool)
+    disch = sum(1 for o in proved_pool if o.status == DISCHARGED)
+    nb = [o for o in obs if o.bounded]
     samples = []
     for o in obs[:4]:
         samples.append(dict(obligation=o.id, function=o.function, backend=o.backend,
@@ -370,16 +376,19 @@ def write_evidence(prop, tier, level, obligations, wall_s, assumptions, trusted_
         discharged=disch,
         failed=sum(1 for o in obs if o.status == FAILED),
         undecided=sum(1 for o in obs if o.status == UNDECIDED),
+        total_obligations_run=len(obs),
         checker_cmd="; ".join(sorted(set(checker_cmds)))[:4000],
         trusted_base=sorted(set(trusted_base)),
         samples=samples,
         functions_under_contract=sorted(set("%s:%s" % (o.file, o.function) for o in obs if o.function)),
         obligation_list=[o.to_json() for o in obs],
-        bounded=[dict(obligation=o.id, bound=o.bounded) for o in obs if o.bounded],
+        bounded=[dict(obligation=o.id, bound=o.bounded, status=o.status) for o in obs if o.bounded],
+        bounded_or_syntactic=dict(n=len(nb), passed=sum(1 for o in nb if o.status == DISCHARGED),
+                                  note="not counted in obligations/discharged when level is proof"),
         solver_time_s=round(sum(o.time_s for o in obs), 3),
         known_findings_matched=list(known),
         # generic keys (measured): evaluations = obligations run, distinct = distinct ids run
-        evaluations=n,
+        evaluations=len(obs),
         distinct_nontrivial=len(set(o.id for o in obs)),
         rule="one evaluation = one named proof obligation generated from /repo's current source and sent to a back end; all are non-trivial (vacuity canaries checked separately)",
     )
@@ -396,7 +405,7 @@ def write_evidence(prop, tier, level, obligations, wall_s, assumptions, trusted_
     ev = dict(property_id=prop, tier=tier, seed=int(os.environ.get("VERIF_SEED", "0") or 0),
               level=level, coverage=cov, assumptions=sorted(set(assumptions)),
               wall_s=round(wall_s, 2), violations=violations)
-    d = os.path.join(VERIF, "evidence")
+    d = os.path.join(os.environ.get("ABRA_VERIF_OUT") or VERIF, "evidence")
     os.makedirs(d, exist_ok=True)
     with open(os.path.join(d, "%s.json" % prop), "w") as f:
         json.dump(ev, f, indent=1)
